@@ -407,6 +407,44 @@ pub fn teval(args: &[String]) {
     }
     far_from_origin(seed, cases);
     fast_tiny_steps();
+    teval_just_after_step_end(seed);
+}
+
+/// C10 / C05: a requested time a little beyond a step end (within the handler's 1e-12) and a terminal event between that
+/// step end and the requested time: no sample later than the event may be reported, and the times stay monotone.
+fn teval_just_after_step_end(seed: u64) {
+    let mut rng = Rng(seed ^ 0x7A11);
+    let mut k = 0;
+    for method in ALL_METHODS {
+        for back in [false, true] {
+            let kind = *rng.pick(&[Kind::Harmonic, Kind::VdP, Kind::Mixed]);
+            let mut p = Prob::new(kind);
+            let y0 = p.y0();
+            let xend = if back { -2.0 } else { 2.0 };
+            let d = if back { -1.0 } else { 1.0 };
+            let mk = || { let mut o = Options::builder().method(method).rtol(1e-6).atol(1e-8).build(); if method == Method::RK4 { o.first_step = Some(0.125); } o };
+            let plain = match solve_ivp(&p, 0.0, xend, &y0, mk()) { Ok(r) => r, Err(_) => continue };
+            if plain.t.len() < 4 { continue; }
+            let g = plain.t[1 + rng.below(plain.t.len() - 2)];
+            let c = g + d * 2e-13;
+            let req = g + d * 8e-13;
+            p.events = vec![EventSpec { a: 1.0, b: vec![0.0; p.n()], c, dir: 0, terminal: Some(1) }];
+            let mut o = mk();
+            o.t_eval = Some(vec![req]);
+            let mut why = String::new();
+            let mut extra = String::new();
+            if let Ok(sol) = solve_ivp(&p, 0.0, xend, &y0, o) {
+                extra = format!("\"status\":\"{:?}\",\"t\":{:?},\"step_end\":{:?},\"event\":{:?},\"requested\":{:?},", sol.status, sol.t, g, c, req);
+                if let Some(te) = sol.t_events[0].first() {
+                    if let Some(t) = sol.t.iter().find(|t| (**t - te) * d > 0.0) { why = format!("sample t = {:?} lies beyond the terminal event at {:?} (requested time {:?} just after the step end {:?})", t, te, req, g); }
+                }
+                if why.is_empty() { if let Some(w) = sol.t.windows(2).find(|w| (w[1] - w[0]) * d < 0.0) { why = format!("sample times {:?} then {:?} go backwards", w[0], w[1]); } }
+            }
+            println!("{{\"kind\":\"te\",\"case\":{},\"problem\":\"{:?}\",\"method\":\"{}\",\"x0\":0,\"xend\":{},\"n_requested\":1,\"branch\":\"teval-just-after-step-end\",\"finding_key\":\"{}\",{}\"ok\":{},\"why\":{:?}}}",
+                720000 + k, kind, method_name(method), xend, if why.is_empty() { "" } else { "c10-sample-after-terminal" }, extra, why.is_empty(), why);
+            k += 1;
+        }
+    }
 }
 
 /// C05 with steps shorter than the handler's time tolerance (1e-12): fast dynamics y' = lam y on [0, 3 / lam] with
